@@ -251,6 +251,10 @@ def step (line : String) : String :=
       | some bs => "ok " ++ showBlocks bs
       | none => "err"
     | _, _, _ => "bad-op"
+  | ["safe", h] =>
+    match hexArg h with
+    | some bs => if Safe.safe (fun _ => false) bs then "ok" else "err"
+    | none => "bad-op"
   | ["planflags", fields] =>
     let fs := if fields == "-" then [] else fields.splitOn ","
     let flags := Plan.plan fs
